@@ -1,4 +1,5 @@
 import NeoFS.Lemmas.BalanceAuth
+import NeoFS.Model.BalanceSystem
 /-! # C02 — Balance: a balance can only be lowered with the holder's or the Alphabet's authorisation
 
 Property theorems only; helper lemmas are in `NeoFS/Lemmas/BalanceAuth.lean` (and the files it
@@ -84,5 +85,43 @@ example : (invoke st asB (.transferX A B 60 [])).2 = none := by decide
 example : (getAcc (invoke st alpha (.transferX A B 60 [])).1.accts A).bal = 600 := by decide
 example : (getAcc (run init (demo ++ [(asA, .transfer A B 60)])).accts A).bal
     < (getAcc (run init demo).accts A).bal := by decide
+
+/-! ## The same inside the system: debits made through Netmap ticks
+
+`NeoFS.BalanceSystem` (Balance + Netmap's epoch gate, executed by the driver for real `netmap.newEpoch` transactions): a
+Netmap tick reaches Balance only as an Alphabet-witnessed invocation, so every step of every history of the system —
+direct invocation or Netmap tick — that lowers a balance carries the holder's authorisation or the Alphabet's. -/
+theorem system_debit_authorised (d : BalanceSystem.State) (env : Env) (op : BalanceSystem.Op) (a : Hash)
+    (h : (getAcc (BalanceSystem.invoke d env op).1.bal.accts a).bal < (getAcc d.bal.accts a).bal) :
+    env.alphabet = true ∨ (a ∈ env.witnesses ∨ env.caller = a) := by
+  cases op with
+  | bal op => exact debit_authorised d.bal env op a (by simpa [BalanceSystem.invoke] using h)
+  | nmtick e =>
+    by_cases ha : env.alphabet = true
+    · exact Or.inl ha
+    · have : (BalanceSystem.invoke d env (.nmtick e)).1 = d := by simp [BalanceSystem.invoke, ha]
+      rw [this] at h; exact absurd h (Int.lt_irrefl _)
+
+theorem system_debit_needs_authorised_transaction (hist : List (Env × BalanceSystem.Op)) (d : BalanceSystem.State) (a : Hash)
+    (h : (getAcc (BalanceSystem.run d hist).bal.accts a).bal < (getAcc d.bal.accts a).bal) :
+    ∃ x ∈ hist, x.1.alphabet = true ∨ (a ∈ x.1.witnesses ∨ x.1.caller = a) := by
+  induction hist generalizing d with
+  | nil => exact absurd h (Int.lt_irrefl _)
+  | cons x rest ih =>
+    obtain ⟨env, op⟩ := x
+    by_cases hstep : (getAcc (BalanceSystem.invoke d env op).1.bal.accts a).bal < (getAcc d.bal.accts a).bal
+    · exact ⟨(env, op), List.mem_cons_self, system_debit_authorised d env op a hstep⟩
+    · have h' : (getAcc (BalanceSystem.run (BalanceSystem.invoke d env op).1 rest).bal.accts a).bal <
+          (getAcc (BalanceSystem.invoke d env op).1.bal.accts a).bal := by
+        have : BalanceSystem.run d ((env, op) :: rest) = BalanceSystem.run (BalanceSystem.invoke d env op).1 rest := rfl
+        rw [this] at h; omega
+      obtain ⟨y, hy, hauth⟩ := ih _ h'
+      exact ⟨y, List.mem_cons_of_mem _ hy, hauth⟩
+
+-- non-vacuity: a tick signed by a stranger changes nothing; the Alphabet's tick releases a lock (a debit of the lock account)
+def sysSt : BalanceSystem.State := BalanceSystem.run BalanceSystem.init
+  [(alpha, .bal (.mint A 1000 [])), (alpha, .bal (.lock [] A B 100 1))]
+example : (BalanceSystem.invoke sysSt asB (.nmtick 1)).2 = none := by decide
+example : (getAcc (BalanceSystem.invoke sysSt alpha (.nmtick 1)).1.bal.accts B).bal < (getAcc sysSt.bal.accts B).bal := by decide
 
 end NeoFS.Props.C02
